@@ -243,10 +243,20 @@ class Projection:
 
 
 def index_snapshot(sim) -> Dict[str, Any]:
+    import h3
+
     def m(x):
         return [[k, sorted(v)] for k, v in sorted(x.items())]
 
+    cells = set()
+    for coll in (sim.vehicles, sim.requests, sim.stations, sim.bases):
+        for e in coll.values():
+            cells.add(e.geoid)
+    for mp in (sim.v_locations, sim.r_locations, sim.s_locations, sim.b_locations):
+        cells.update(mp.keys())
     return {
+        # the enclosing search cell of every cell in use (h3 itself is trusted)
+        "parent": [[c, h3.h3_to_parent(c, sim.sim_h3_search_resolution)] for c in sorted(cells)],
         "vloc": m(sim.v_locations), "rloc": m(sim.r_locations), "sloc": m(sim.s_locations), "bloc": m(sim.b_locations),
         "vsrch": m(sim.v_search), "rsrch": m(sim.r_search), "ssrch": m(sim.s_search), "bsrch": m(sim.b_search),
     }
